@@ -146,6 +146,7 @@ def run_check(prop: str, tier: str) -> int:
     nt_digests = set()
     digests_a = {}
     violations = []
+    unreproduced = []
     for _tag, lines in results:
         for l in lines:
             t = l.get("type")
@@ -163,6 +164,8 @@ def run_check(prop: str, tier: str) -> int:
                 digests_a[l["i"]] = l["d"]
             elif t == "violation":
                 violations.append(l)
+            elif t == "unreproduced":
+                unreproduced.append(l)
     explore_s = time.monotonic() - t_start
 
     # ---- determinism self-test: same seeds, reversed order, other process ---- #
@@ -223,6 +226,22 @@ def run_check(prop: str, tier: str) -> int:
         back, rerr, _ = reproduces(prop, path)
         if back:
             unmatched.append({"replay": path, "clause": json.load(open(path))["expect"]["clause"], "seed": f"regression of fixed finding {f['id']}"})
+
+    # ---- violations a worker could not reproduce in-process -------------------- #
+    # Reported only if they reproduce in fresh interpreters, twice over; otherwise
+    # they are non-replayable: a harness error, never a VIOLATION and never a pass.
+    for u in unreproduced[:4]:
+        outs = [replay_file(prop, u["replay"])[0] for _ in range(2)]
+        ok = all(o and u["clause"] in (o.get("clauses") or []) for o in outs)
+        if ok and outs[0].get("digest") == outs[1].get("digest"):
+            scn = json.load(open(u["replay"]))
+            scn["expect"] = {"clause": u["clause"], "digest": outs[0].get("digest")}
+            with open(u["replay"], "w") as f:
+                json.dump(scn, f, indent=1, default=str)
+            violations.append(u)
+        else:
+            errors.append(f"violation {u['clause']} (seed {u['seed']}) seen during exploration is not replayable: not in the same process, "
+                          f"not in fresh interpreters - something the simulator does not control (S6: object identity / allocator state) is involved; scenario kept at {u['replay']}")
 
     # ---- violations: confirm by replay in a fresh interpreter ----------------- #
     matched = {}
